@@ -214,7 +214,7 @@ type faultCase struct {
 func init() {
 	Registry["C07"] = func(c *Ctx) {
 		c.R.Level = "model_checking"
-		c.R.Rule = "for each of 4 short histories on the model workspace (cold build; warm rebuild after an input edit; restore after deleting all outputs; re-execution over existing cache entries) a fault-free run of an instrumented grog binary logs every instance of every file-system call site of the cache backend, output handlers, executor, locker and loader, and every cache-backend operation; then for EVERY logged crash-point instance the process is killed (SIGKILL) exactly there, and for EVERY backend operation instance a storage fault is injected (error before the operation; for Set: content consumed, nothing stored, error; for Get: reader failing after the first byte; Get/Exists reporting absent); after each faulted run the cache directory is audited offline (every cas blob hashes to its name, every target result decodes, carries its key and references only present blobs, recursively through directory trees), then a fault-free follow-up build must exit 0 with outputs identical to a from-scratch build, and a second one must execute nothing. Layered cache (local file-system layer + directory-backed remote behind the real RemoteWrapper): the LOCAL layer fails while the remote is healthy - cas / target is a regular file, or a non-empty directory sits at the final path of one entry, for every entry a cold build stores; afterwards the remote passes the audit, a second machine builds correctly from it, and once the obstruction is removed the next build on the first machine exits 0 with from-scratch outputs and the remote passes the audit. Component level: 2 and 3 concurrent writers of the SAME digest (targets with identical output bytes) go through the real Cas and TargetResultCache over a backend whose Set is split into started/committed by scheduling points and may fail, under every schedule with <= 3 (quick) / 4 (thorough) deviations: a write is acknowledged only when the blob is stored, no target result is visible without its blob. Interrupts: SIGINT/SIGTERM delivered at every logged call-site instance (quick: <= 3 per site) of a build with a directory output; the cache left behind must pass the same audit. Non-trivial = a fault instance after which the cache directory differs from both the pre-state and the fault-free post-state, or the faulted run failed."
+		c.R.Rule = "for each of 4 short histories on the model workspace (cold build; warm rebuild after an input edit; restore after deleting all outputs; re-execution over existing cache entries) a fault-free run of an instrumented grog binary logs every instance of every file-system call site of the cache backend, output handlers, executor, locker and loader, and every cache-backend operation; then for EVERY logged crash-point instance the process is killed (SIGKILL) exactly there, and for EVERY backend operation instance a storage fault is injected (error before the operation; for Set: content consumed, nothing stored, error; for Get: reader failing after the first byte; Get/Exists reporting absent); after each faulted run the cache directory is audited offline (every cas blob hashes to its name, every target result decodes, carries its key and references only present blobs, recursively through directory trees), then a fault-free follow-up build must exit 0 with outputs identical to a from-scratch build, and a second one must execute nothing. Layered cache (local file-system layer + directory-backed remote behind the real RemoteWrapper): the LOCAL layer fails while the remote is healthy - cas / target is a regular file, or a non-empty directory sits at the final path of one entry, for every entry a cold build stores; afterwards the remote passes the audit, a second machine builds correctly from it, and once the obstruction is removed the next build on the first machine exits 0 with from-scratch outputs and the remote passes the audit. The remote layer fails once (every remote operation instance x {error, mid-stream failure, reported absent}) while machine A rebuilds targets whose blobs exist in its local layer only: the remote passes the audit whatever the exit status, and after exit 0 a second machine builds correctly. Component level: 2 and 3 concurrent writers of the SAME digest (targets with identical output bytes) go through the real Cas and TargetResultCache over a backend whose Set is split into started/committed by scheduling points and may fail, under every schedule with <= 3 (quick) / 4 (thorough) deviations: a write is acknowledged only when the blob is stored, no target result is visible without its blob. Interrupts: SIGINT/SIGTERM delivered at every logged call-site instance (quick: <= 3 per site) of a build with a directory output; the cache left behind must pass the same audit. Non-trivial = a fault instance after which the cache directory differs from both the pre-state and the fault-free post-state, or the faulted run failed."
 		c.R.Assume("a crash is SIGKILL of the grog process: the surviving state is the prefix of completed system calls (power-loss reordering of unsynced blocks is outside the stated property; grog never calls fsync)", "crash points are the statements that perform os.* / io.Copy / Chmod calls in "+strings.Join(crashFiles, ", "), "the relative progress of other goroutines at the crash instant is whatever the runtime produced in that run (the schedule dimension is explored at component level by the bubblesched checks)")
 		grog, err := vc.BuildGrog("grog", nil)
 		if err != nil {
@@ -402,6 +402,7 @@ func init() {
 		// layered cache: the local layer fails while the remote is healthy
 		if backendDecorated {
 			layeredLocalFaults(c, "C07", fbin, abin, base, cleanFor)
+			layeredRemoteFaults(c, "C07", fbin, abin, base, cleanFor)
 		} else {
 			c.R.Cap("the fake remote cannot be attached (GetCacheBackend was refactored away): the layered-cache part is skipped")
 		}
